@@ -6,7 +6,7 @@
 (* backend received, reported position, counters).  Every field the step   *)
 (* predicates need is logged, so validation is linear.                     *)
 (***************************************************************************)
-EXTENDS BitStream, TLC, Json, IOUtils
+EXTENDS BitStream, Dispatch, TLC, Json, IOUtils
 LOCAL INSTANCE SequencesExt
 
 Rec == ndJsonDeserialize(IOEnv.TRACE)
@@ -230,7 +230,60 @@ LenEv ==
     /\ LET c == CodeOf(Ev)  n == Nat8(Ev.v)
        IN  InDomain(c, n) /\ Ev.ret = CLen(c, n)
 
-Next == \/ LenEv \/ Reset \/ NewW \/ WriteBits \/ WriteUnary \/ WriteCode \/ WriteBytes \/ Flush \/ Close
+\* ------------------------------------------------------------------ dispatch
+\* The event names the identifier used (a compile-time constant by prefix +
+\* index, or an enumeration variant + parameter); the expected behaviour is
+\* that of the code the identifier names.
+Named(e) == IF e.idk = "const" THEN ConstCodeOf(e.cn, e.ci) ELSE EnumCode(e.en, Nat8(e.ep))
+
+DWrite ==
+    /\ Is("dwrite") /\ Step /\ UNCHANGED rds /\ LiveW(Ev.o)
+    /\ LET wr == wrs[Ev.o]  c == Named(Ev)  n == Nat8(Ev.v)  D == Delivered(Ev, wr)
+           wr2 == After(wr, Enc(c, wr.e, n), D)
+       IN  /\ InDomain(c, n)
+           /\ WriteCodeStep(wr, c, n, Ev.res, Ev.ret, D, wr2)
+           /\ wrs' = [wrs EXCEPT ![Ev.o] = Logged(wr2, Ev.nb)]
+
+DRead ==
+    /\ Is("dread") /\ Step /\ UNCHANGED wrs /\ LiveR(Ev.o)
+    /\ LET rd == rds[Ev.o]  c == Named(Ev)
+           d == Dec(c, EOf(rd), Src(rd.src), rd.pos)
+           rd2 == IF Ev.res = "ok" /\ ~IsShort(d) THEN Adv(rd, d.p - rd.pos) ELSE Kill(rd)
+       IN  /\ ReadCodeStep(rd, c, Ev.res, Nat8(Ev.v), rd2)
+           /\ RStepOK(Ev, rd2)
+           /\ rds' = [rds EXCEPT ![Ev.o] = rd2]
+
+DLen == /\ Is("dlen") /\ Step /\ UNCHANGED <<wrs, rds>>
+        /\ LET c == Named(Ev)  n == Nat8(Ev.v) IN InDomain(c, n) /\ Ev.ret = CLen(c, n)
+
+\* the function-pointer objects accept exactly the supported enumeration values
+FuncNew == /\ Is("func_new") /\ Step /\ UNCHANGED <<wrs, rds>>
+           /\ (Ev.res = "ok") <=> Supported(EnumCode(Ev.en, Nat8(Ev.ep)))
+\* the statistics wrapper saw every value exactly once
+StatsCount == Is("stats_count") /\ Step /\ UNCHANGED <<wrs, rds>> /\ Ev.n = Ev.total
+
+\* ------------------------------------------------------------------ names (C16)
+SameId(n1, p1, n2, p2) == n1 = n2 /\ (n1 \in ParamLess \/ p1 = p2)
+TextRt == /\ Is("text_rt") /\ Step /\ UNCHANGED <<wrs, rds>>
+          /\ Ev.res = "ok" /\ SameId(Ev.an, Ev.ap, Ev.bn, Ev.bp)
+ParseEv == /\ Is("parse") /\ Step /\ UNCHANGED <<wrs, rds>>
+           /\ LET t == [name |-> Ev.name, paren |-> Ev.paren, pkind |-> Ev.pkind, pval |-> Nat8(Ev.pval), trailing |-> Ev.trailing]
+              IN  IF MustReject(t) THEN Ev.res = "err"
+                  ELSE IF WellFormed(t) THEN Ev.res = "ok" /\ SameId(Ev.name, Ev.pval, Ev.bn, Ev.bp)
+                  ELSE Ev.res = "err" \/ SameId(Ev.name, Ev.pval, Ev.bn, Ev.bp)
+ConstRt == /\ Is("const_rt") /\ Step /\ UNCHANGED <<wrs, rds>>
+           /\ Ev.res = "ok" => (Ev.res2 = "ok" /\ SameCodewords(EnumCode(Ev.an, Nat8(Ev.ap)), EnumCode(Ev.bn, Nat8(Ev.bp))))
+IdRt == /\ Is("id_rt") /\ Step /\ UNCHANGED <<wrs, rds>>
+        /\ ConstExists(Ev.cn, Ev.ci) /\ Ev.res = "ok" /\ Ev.same_id
+        /\ SameCodewords(ConstCodeOf(Ev.cn, Ev.ci), EnumCode(Ev.bn, Nat8(Ev.bp)))
+IdBad == Is("id_bad") /\ Step /\ UNCHANGED <<wrs, rds>> /\ Ev.res = "err"
+CodeEq == /\ Is("code_eq") /\ Step /\ UNCHANGED <<wrs, rds>>
+          /\ Ev.eq => (SameId(Ev.an, Ev.ap, Ev.bn, Ev.bp)
+                       \/ SameCodewords(EnumCode(Ev.an, Nat8(Ev.ap)), EnumCode(Ev.bn, Nat8(Ev.bp))))
+
+DispatchNext == DWrite \/ DRead \/ DLen \/ FuncNew \/ StatsCount \/ TextRt \/ ParseEv \/ ConstRt \/ IdRt \/ IdBad \/ CodeEq
+
+Next == \/ DispatchNext \/ LenEv \/ Reset \/ NewW \/ WriteBits \/ WriteUnary \/ WriteCode \/ WriteBytes \/ Flush \/ Close
         \/ NewR \/ ReadBits \/ PeekBits \/ SkipAfterPeek \/ SkipBits \/ ReadUnary \/ ReadCode
         \/ ReadBytes \/ SetBitPos \/ Clone \/ DropR \/ DropW \/ Copy
 
